@@ -481,7 +481,7 @@ def x64_key(name, form, sym, toks, exp, got):
     return "x64:%s:%s:%s" % (name, form, sym)
 
 
-def x64_equal(exp, got, start, length):
+def x64_equal(exp, got, start, length, dispmod=1 << 64):
     """structural comparison after canonicalisation; returns None if equal, else a short symptom."""
     if got is None or got[0] == "(prefix)":
         return "undecodable"
@@ -533,7 +533,7 @@ def x64_equal(exp, got, start, length):
                 return "mem-size"
             if (e[2] or None) != (g[2] or None) or g[3] is not None:
                 return "mem-base"
-            if (e[5] - g[5]) % (1 << 64) != 0:
+            if (e[5] - g[5]) % dispmod != 0:
                 return "mem-disp"
     return None
 
@@ -979,8 +979,63 @@ def run(ctx):
                           {"op": o, "impl": r, "objdump": dtext})
         else:
             bump("x64_objdump_roundtrip_ok")
+            # the repo's vendored x86asm decoder on the same bytes (Intel syntax): same instruction, same length
+            rd = r.split("|", 1)[1].strip()
+            mm = re.match(r"^D len=(\d+) (.*)$", rd)
+            if not mm:
+                ctx.violation("x64-Decode:%s:error" % name, "x64.Decode fails on %s produced for `%s`: %s" % (r.split()[1], o, rd), {"op": o, "impl": r})
+            else:
+                txt = mm.group(2).replace("_", " ")
+                for a, b in (("xmmword ptr", "XMMWORD PTR"), ("qword ptr", "QWORD PTR"), ("dword ptr", "DWORD PTR"), ("word ptr", "WORD PTR"), ("byte ptr", "BYTE PTR")):
+                    txt = txt.replace(a, b)
+                txt = re.sub(r"(?<![A-Z] )\bptr \[", "[", txt).replace(", ", ",")
+                f2 = txt.split(None, 1)
+                got2 = x64_parse_objdump(f2[0] + ("    " + f2[1] if len(f2) > 1 else ""))
+                # x86asm prints branch targets as .+rel
+                sym2 = None if (got2 and got2[0] in ("call", "jmp") and exp[1] and exp[1][0][0] == "imm") else x64_equal(exp, got2, st, ln, 1 << 32)   # (x86asm prints a negative disp32 as +0xffffff7f)
+                if sym2 is None and int(mm.group(1)) != ln:
+                    sym2 = "length"
+                if sym2:
+                    ctx.violation("x64-Decode:%s:%s" % (name, sym2), "x64.Decode(%s) prints `%s` for the instruction `%s` (objdump: `%s`)" % (
+                        r.split()[1], mm.group(2), o, " ".join(dtext.split())), {"op": o, "impl": r})
+                else:
+                    bump("x64_repo_decode_ok")
         if len(samples) < 16 and i % 701 == 0:
             samples.append({"op": o, "impl": r, "objdump": " ".join(dtext.split())})
+    # bonus: the Lean REX/ModRM/SIB/disp model against the real bytes of `mov r, [base+disp]` / `mov [base+disp], r`
+    if m:
+        rm_ops, rm_real = [], []
+        for o, r in zip(x_ops, ximpl):
+            f = o.split()
+            if f[1] != "mov" or not r.startswith("ok ") or f[4] != "-":
+                continue
+            a, b = f[2].split(":"), f[3].split(":")
+            if a[0] == "reg" and b[0] == "mem":
+                opc, regn, memop = "8b", a[1], b
+            elif a[0] == "mem" and b[0] == "reg":
+                opc, regn, memop = "89", b[1], a
+            else:
+                continue
+            if memop[2] in ("rip", "-") or regn not in X64_FAMILY or X64_SIZE[regn] < 4:
+                continue
+            if {"dword": 4, "qword": 8}.get(memop[1]) != X64_SIZE[regn]:
+                continue
+            rm_ops.append("x64rm %s %d %d %d %s" % (opc, 1 if X64_SIZE[regn] == 8 else 0, X64_FAMILY[regn], X64_FAMILY[memop[2]], memop[3]))
+            rm_real.append((o, r.split()[1]))
+        if rm_ops:
+            _, mo, _ = ctx.run_bin(m, input_text="\n".join(rm_ops) + "\n")
+            ml = mo.splitlines()
+            ctx.corr["lines"] += len(rm_ops)
+            for (o, real), q, ans in zip(rm_real, rm_ops, ml):
+                qf = q.split()
+                want_back = "%s %s %s %s" % (qf[2], qf[3], qf[4], qf[5])
+                model_hex, back = [x.strip() for x in ans.split("|")] if "|" in ans else (ans, "?")
+                if model_hex != real or back != want_back:
+                    ctx.corr["diffs"] += 1
+                    ctx.proof["broken"].append({"theorem": "correspondence C17 x64 ModRM/SIB model vs x64.Encode",
+                                                "why": "op %r: impl=%s model=%s model-decode=%s" % (o, real, model_hex, back)})
+                    break
+            bump("x64_modrm_model_lines", len(rm_ops))
     dist["x64_accepted_forms"] = len(x_accept_forms)
     dist["x64_accepted_mnemonics"] = sorted({k[0] for k in x_accept_forms})
 
